@@ -236,8 +236,10 @@ theorem seeded_cache_violates_scratch_ok :
 /-- **transpile_simulates (partial: under `QStatic`)**. Every finite execution of the vanilla
 subroutine from `s0` to `(pc, s)` is matched by an execution of the serialised NV subroutine from
 the same `s0` to `(index_changes pc, u)` — pc correspondence through the index map — with
-`Rel`: equal memory (classical arrays, quantum state, …), equal non-Q registers, and equal values
-of every Q register the program can read at `pc`. -/
+`Rel`: equal memory (classical arrays, quantum state, …), equal registers except Q registers the
+pass borrows as scratch somewhere in `S` (`ScratchSet`), and equal values of every Q register the
+program can read at `pc` (inside a window), borrowed or not. The exception is necessary: the NV
+program really overwrites the borrowed register with 0, and `scratch_ok` shows it is dead there. -/
 theorem transpile_simulates_partial {μ : Type} (M : Sem μ) (cfg : Cfg)
     (hT : TemplatesNoBranch cfg = true) (hW : InfosWF cfg = true) (hpad : isDebug cfg.pad = false)
     (hL : SemLocal M cfg) (hE : ExpandSound M cfg)
@@ -252,7 +254,8 @@ theorem transpile_simulates_partial {μ : Type} (M : Sem μ) (cfg : Cfg)
   exact ⟨cs, u, hc, hidx, h1, h2⟩
 
 /-- **Terminating runs**: if the vanilla subroutine runs off its end in state `s`, the serialised
-NV subroutine runs off *its* end in a state with the same memory and the same non-Q registers —
+NV subroutine runs off *its* end in a state with the same memory and the same registers — all
+non-Q registers and every Q register that `get_unused_register` hands out nowhere in `S` —
 except, when the padding `set C15 1337` was appended (a branch targeted the end), the padding
 register (the documented mechanism). -/
 theorem transpile_simulates_final_partial {μ : Type} (M : Sem μ) (cfg : Cfg)
@@ -263,7 +266,8 @@ theorem transpile_simulates_final_partial {μ : Type} (M : Sem μ) (cfg : Cfg)
     (s0 s : St μ) (hrun : Steps M cfg S (0, s0) (S.length, s)) :
     ∃ cs u, Chunks cfg [] [] S cs ∧ Steps M cfg (serialise out) (0, s0) ((serialise out).length, u) ∧
       s.mem = u.mem ∧
-      ∀ r, r.bank ≠ bankQ → (endTargeted cfg S cs = false ∨ r ≠ rp) → s.regs r = u.regs r := by
+      ∀ r, (r.bank ≠ bankQ ∨ ¬ ScratchSet S r) → (endTargeted cfg S cs = false ∨ r ≠ rp) →
+        s.regs r = u.regs r := by
   obtain ⟨cs, hc, hidx, hout, hok⟩ := transpile_structure h
   have C : Ctx M cfg S out cs := ⟨hT, hW, hpad, hL, hE, hQ, hc, hout, hok⟩
   obtain ⟨u, h1, h2⟩ := sim_steps C hrun s0 (Rel.init cfg S s0)
@@ -271,7 +275,7 @@ theorem transpile_simulates_final_partial {μ : Type} (M : Sem μ) (cfg : Cfg)
   obtain ⟨u', h3, hm, hr⟩ := final_pad C hpl hps u
   refine ⟨cs, u', hc, h1.trans h3, by rw [hm]; exact h2.mem, ?_⟩
   intro r hb hc'
-  rw [hr r hc']; exact h2.nonQ r hb
+  rw [hr r hc']; exact h2.outside r hb
 
 /-! ### The C07 hypothesis discharged
 
